@@ -34,6 +34,11 @@ def cases(tier, seed, prep=None):
         who = "ab"[i % 2]
         out.append({"kind": "random", "seed": seed * 1000003 + 60000 + i, "min_msgs": 3, "ndrops": [0, 0, 1],
                     "cfg_over": {"api_" + who: "deferred", "get_" + who: "lazy", "cancel_gets_" + who: 1 + i % 3}})
+    # an application that lets many messages pile up unread (70-100) and only then starts reading
+    for i in range(10 if tier == "quick" else 300):
+        who = "ab"[i % 2]
+        out.append({"kind": "random", "seed": seed * 1000003 + 65000 + i, "min_msgs": 70, "max_msgs": 100, "max_size": 30, "ndrops": [0, 0, 1],
+                    "cfg_over": {"api_" + who: "deferred", "get_" + who: "never"}, "backlog": who.upper()})
     bases = range(3) if tier == "quick" else range(24)
     stride = 4 if tier == "quick" else 1
     for b in bases:
@@ -52,7 +57,7 @@ def cases(tier, seed, prep=None):
 
 
 def run_case(spec):
-    world, drv, sch, cfg = build_case(spec)
+    world, drv, sch, cfg = build_case(spec, max_msgs=spec.get("max_msgs", 12), max_size=spec.get("max_size", 2000))
     dilated = [0]
     if spec.get("dilate"):
         rng = world.work_rng
@@ -69,6 +74,17 @@ def run_case(spec):
             else:
                 sch.faults.append((k, go, "dilate %s" % app.name))
         sch.faults.sort(key=lambda f: f[0])
+    backlog = 0
+    if spec.get("backlog"):
+        late = drv.app(spec["backlog"])                       # reads nothing until everything has been sent
+        other = drv.app("B" if spec["backlog"] == "A" else "A")
+        arrived = lambda: drv.all_sent() and other.msgs == late.sent
+        end = sch.run(8000, until=arrived)
+        sch.drain(120.0, 60000, until=arrived)
+        sch.drain(10.0, 3000)
+        backlog = len(getattr(getattr(late.w, "_received_observer", None), "_results", ()))
+        for _ in range(len(other.sent) + 2):
+            late.get_one_message()
     end = sch.run(1500, until=drv.all_delivered)
     sch.drain(120.0, 6000, until=drv.all_delivered)
     drv.a.close()
@@ -98,7 +114,7 @@ def run_case(spec):
         "counters": {"delivered": delivered, "adv_out_of_order": adv.out_of_order, "adv_dups": adv.dups,
                      "drops": drv.drops_done, "drops_skipped": drv.drops_skipped, **{"drop_" + k: v for k, v in drv.drop_kinds.items()},
                      "complete": int(drv.all_delivered()), "steps": world.step,
-                     "kind_" + spec["kind"]: 1, "dilate_calls": dilated[0], "gets_given_up": getattr(drv.a, "cancelled_gets", 0) + getattr(drv.b, "cancelled_gets", 0),
+                     "kind_" + spec["kind"]: 1, "dilate_calls": dilated[0], "largest_unread_backlog": backlog, "gets_given_up": getattr(drv.a, "cancelled_gets", 0) + getattr(drv.b, "cancelled_gets", 0),
                      "dilate_records_rx": sum(1 for app in (drv.a, drv.b) for (_, m) in app.inbound
                                               if m.get("type") == "message" and str(m.get("phase", "")).startswith("dilate-")),
                      "notrans_seen": len(MON.notrans), "log_errors_seen": len(MON.errors)},
